@@ -332,9 +332,98 @@ MODES = {
 }
 
 
+def _segments(item: dict[str, Any]) -> tuple[list[bytes], list[bytes]]:
+    msgs = [msg(tuple(s)) for s in item["msgs"]]
+    stream = b"".join(encode(m) for m in msgs)
+    if item["seg"] == "msgs":
+        cuts, off = [], 0
+        for m in msgs:
+            off += len(encode(m))
+            cuts.append(off)
+        return msgs, segment(stream, cuts)
+    return msgs, segment(stream, item["seg"])
+
+
+def run_conform(item: dict[str, Any], res: Result) -> None:
+    """Environment-model conformance: the same scenario on the virtual stream (benign schedule) and on a real
+    loopback TCP connection must give the same observable result.  A disagreement is a harness defect."""
+    from vf.engine.realnet import run_real
+
+    msgs, segs = _segments(item)
+    box: dict[str, Any] = {}
+    if item["what"] == "rx":
+        vitem = dict(item, mode="rx", side="tcp")
+        run_once(build_client_rx(vitem, box), [], POLICY)
+        virt = [r[2] for r in box["results"] if r[0] == "msg"]
+
+        async def client(host: str, port: int) -> list[bytes]:
+            tr = await G["tcp"].connect(f"tcp-lines://{host}:{port}")
+            out = []
+            while True:
+                d = await tr.read(timeout=5.0)
+                out.append(d)
+                if d == b"":
+                    break
+            await tr.close()
+            return out
+
+        real, _ = run_real(lambda n: Source(segs, eof=True), client)
+    else:
+        vitem = dict(item, mode="server")
+        run_once(build_server(vitem, box), [], POLICY)
+        virt = bytes(box["src"].rx)
+
+        class Echo:
+            class state:  # noqa: N801
+                @staticmethod
+                def reset() -> None:
+                    pass
+
+            async def respond(self, request: Any) -> Any:
+                class R:
+                    pdu = request.pdu
+
+                return R
+
+        async def main() -> bytes:
+            t = G["srv"].TCPUDSServerTransport(Echo(), G["TargetURI"]("tcp-lines://127.0.0.1:1"))
+
+            async def handler(r: Any, w: Any) -> None:
+                try:
+                    await t.handle_client(r, w)
+                except ZeroDivisionError:
+                    pass
+                w.close()
+
+            server = await asyncio.start_server(handler, "127.0.0.1", 0)
+            port = server.sockets[0].getsockname()[1]
+            reader, writer = await asyncio.open_connection("127.0.0.1", port)
+            import socket as _s
+
+            writer.get_extra_info("socket").setsockopt(_s.IPPROTO_TCP, _s.TCP_NODELAY, 1)
+            for sg in segs:
+                writer.write(sg)
+                await writer.drain()
+                await asyncio.sleep(0.01)
+            writer.write_eof()
+            data = await asyncio.wait_for(reader.read(-1), 20)
+            writer.close()
+            server.close()
+            return data
+
+        real = asyncio.run(main())
+    res.count("conformance_replays")
+    res.count("executions")
+    if real != virt:
+        raise RuntimeError(f"environment model disagrees with real sockets for {item}: virtual {str(virt)[:120]} real {str(real)[:120]}")
+
+
 def run_item(work: tuple[Any, ...]) -> Result:
     item, bound, cap = work
     res = Result()
+    if item["mode"] == "conform":
+        run_conform(item, res)
+        return res
     build, judge = MODES[item["mode"]]
     box: dict[str, Any] = {}
 
@@ -430,6 +519,14 @@ def items(tier: str, seed: int) -> list[Any]:
         out.append(({"mode": "rx", "side": "tcp", "msgs": burst, "seg": seg}, 1, cap))
         out.append(({"mode": "server", "msgs": burst, "seg": seg}, 1, cap))
     out.append(({"mode": "tx", "side": "tcp", "msgs": burst}, 0, cap))
+    # conformance of the stream model against real loopback sockets (few: real time)
+    conf = [([(2, "0a0d")], [3]), ([(1, "00"), (2, "asc")], "msgs"), ([(1, "ff"), (1, "00"), (2, "0a0d")], "one"), ([(255, "asc"), (1, "00")], [1, 300, 511, 512]),
+            ([(4095, "0a0d"), (2, "asc")], [8190, 8192]), ([(2, "asc")], "bytes"), ([], "one"), ([(4095, "ff")] * 2, "msgs")]
+    if not quick:
+        conf += [([SPECS[i % 16], SPECS[(i * 5 + 3) % 16]], [1 + 3 * i]) for i in range(24)]
+    for ms, sg in conf:
+        for what in ("rx", "server"):
+            out.append(({"mode": "conform", "what": what, "msgs": ms, "seg": sg}, 0, cap))
     return out
 
 
@@ -456,7 +553,10 @@ def finish(merged: Result, tier: str) -> dict[str, Any]:
     if not c.get("timeouts_mid_stream"):
         raise Broken("vacuous: no read timeout ever fired in the middle of a partially delivered stream")
     capped = c.get("capped_items", 0)
+    if not c.get("conformance_replays"):
+        raise Broken("no conformance replay ran")
     return {
+        "conformance_replays": c.get("conformance_replays", 0),
         "exhaustive": capped == 0,
         "capped_scenarios": capped,
         "deviation_bound": 1 if tier == "quick" else 2,
